@@ -22,6 +22,7 @@ Proved here (all for arbitrary nesting, arbitrary `Mem`, no size bound):
 * `f17_*`               regression witnesses of F17 on the fixed model (17 `if_ez`, 20 `loop_until`)
 -/
 import NetqasmVerif.Lemmas.Sdk
+import NetqasmVerif.Lemmas.SdkWrites
 namespace NQ.C14
 open NQ.Sdk
 
@@ -198,6 +199,27 @@ theorem temps_disjoint (m m' : Mem) (i : Nat) (h : takeReg m = .ok (m', i)) :
     refine ⟨hne, ?_⟩
     rw [s.2.1, getD_set_ne (Ne.symm hne)]; exact hj
   · rw [s.2.1]; exact getD_set_self (getD_true_false_lt s.1) _ _
+
+
+/-- **temps_disjoint on the EMITTED COMMANDS.** Let `op` be any completed operation compiled from `m`.
+No command emitted for it writes (`set`/`load`/`add`/`addm` destination) an R register that is active
+in `m` — i.e. a live loop / condition register of an enclosing operation or a `new_register()`
+register — except the `add` of a `RegFuture.add(h, …)` occurring in `op`, which writes the register
+of its handle `h` on purpose (its owner). -/
+theorem temps_disjoint_code (op : Host) (m m' : Mem) (cs : List PCmd) (hc : Completed op)
+    (h : emit m op = .ok (m', cs)) :
+    ∀ c ∈ cs, ∀ x, writeOf c = some x → x.bank = 0 → m.active.getD x.idx false = true →
+      ∃ hh ∈ addTargets op, ∃ b, m'.handles[hh]? = some (x, b) :=
+  emit_writes op m m' cs hc h
+
+/-- non-vacuity: inside two nested loops a `Future.add` with a future-indexed operand writes only
+R2/R3; the enclosing loop registers R0, R1 are never written by the inner operation -/
+example : let inner : Host := .addF (.fut 0 (.lit 0 0)) (.fut (.lit 0 1)) none
+    let m : Mem := { Mem.init with active := (Mem.init.active.set 0 true).set 1 true, arrLens := [2] }
+    (match emit m inner with
+      | .ok (_, cs) => cs.filterMap writeOf
+      | .error _ => []) = [R 3, R 2, R 3, R 2, R 3] := by
+  decide +kernel
 
 /-- the un-activated pick used for the array-initialisation loop and for future-indexed futures -/
 theorem temps_disjoint_pick (m : Mem) (i : Nat) (h : getInactive m = .ok i) :
